@@ -634,4 +634,18 @@ func TestCheck(t *testing.T) {
 	r.Group("stress", r.Pick(16, 64), func(i int, rng *report.Rand) {
 		fail(stress(r, rng, r.Pick(250, 2000)), "stress")
 	})
+
+	// real WebSocket clients: 0..3 clients per endpoint
+	var wsConfigs [][]int
+	for a := 0; a <= 3; a++ {
+		for b := 0; b <= 3; b++ {
+			wsConfigs = append(wsConfigs, []int{a, b, (a + b) % 2})
+		}
+	}
+	r.Group("websocket", len(wsConfigs)*r.Pick(1, 10), func(i int, rng *report.Rand) {
+		if msg := wsCase(r, wsConfigs[i%len(wsConfigs)], r.Pick(30, 300), i); msg != "" {
+			r.Count("ws.inconclusive", 1)
+			t.Errorf("inconclusive: %s", msg)
+		}
+	})
 }
